@@ -54,8 +54,11 @@ CONFIGS = {
 
 SCALAR_RULE = ("complete enumeration of the value alphabet V64 (exhaustive prefix [0,2^P), boundary windows +-3 around "
                "every family boundary, the 5-symbols-per-byte product 5^8, byte sweeps, walking bits) through every "
-               "entry point of every scalar family on the real code; a class is a distinct (family, entry point, "
-               "encoded length, alignment) combination reached")
+               "entry point of every scalar family on the real code (macro forms with an expression operand that differs on "
+               "re-evaluation; the bounded tagged reader with 28 available-byte counts up to INT32_MAX; 1..16-byte wide "
+               "external forms over a 150 x 150 product of 64-bit halves; the bit writer / reader directly at every start "
+               "position 0..71 x width 1..64 and at far stream positions 2^31..2^42 in a PROT_NONE reservation); a class is "
+               "a distinct (family, entry point, encoded length, alignment) combination reached")
 
 WRAP_SCHED = ("-Wl,--wrap=malloc,--wrap=calloc,--wrap=realloc,--wrap=free,--wrap=memcpy,--wrap=memmove,--wrap=memset,"
               "--wrap=memcmp,--wrap=qsort,--wrap=pthread_mutex_lock,--wrap=pthread_mutex_unlock,--wrap=pthread_mutex_trylock")
@@ -145,7 +148,9 @@ ARRAY_RULE = ("every array of the corpus A (S1: all arrays of length 1-3 over a 
               "over {0,1,255,2^64-1}, length <=8 over {1,2}; S2: complete product of length class x shape x step x base "
               "x outlier pattern x magnitude, thinned for longer lengths, and every length 1..300/520; S3: adversarial families; "
               "S4: every length 1..72/300 x (minimum class, spread at both ends of each byte class, stride, 0-2 outliers, "
-              "order)) through every codec entry point on the real code, each typed input at 2 (thorough: 3) start "
+              "order); S2f: lengths 301..4200 (thorough: every one); S2q: 65536 and the 67823|67824 tagged-count boundary; giant: "
+              "1,048,577 elements (clustered with the minimum at an odd index; all distinct), thorough optimised builds also "
+              "3,000,000 and 16,777,215..16,777,217) through every codec entry point on the real code, each typed input at 2 (thorough: 3) start "
               "alignments (flush against the guard page, 1 and 3 elements earlier), in each build configuration "
               "(pinned, -march=native; thorough also x86-64-v2, -v3, -O0 with asserts, ASan); a class is a distinct (codec, header-length class, width class, exception / "
               "block structure) combination reached")
@@ -168,7 +173,7 @@ arrays("C02", "E-enum: encode, copy the reported bytes into an exact-size guard-
               "compare with the input; every random-access / block reader compared with the full decode at every index")
 arrays("C03", "E-enum: the encoder's destination is a guard-page buffer of exactly the advertised size, so a write one byte "
               "past it faults; returned length <= advertised (== where documented exact)")
-arrays("C13", configs={"quick": ["pinned"], "thorough": ["pinned", "native", "asan", "v2", "bmi"]}, expl="E-enum over (valid encoding, capacity c in 0..n): the output buffer holds exactly c elements before a "
+arrays("C13", configs={"quick": ["pinned"], "thorough": ["pinned", "native", "asan", "v2", "bmi"]}, expl="E-enum over (valid encoding, capacity c in 0..n, and where the encoding carries its count also 13 capacities above n up to 2^40) x (no fault, k-th allocation of the decode failing for every k): the output buffer holds exactly c elements before a "
               "PROT_NONE page; library-internal blocks carry redzones; result must be 0 or a correct prefix",
        rule_extra="; x every capacity 0..n (n <= 385 quick, 4097 thorough)")
 arrays("C16", "E-enum: every metadata field and header accessor named by the property compared with ground truth "
@@ -190,7 +195,9 @@ CHECKS["C08"] = dict(
          "(thorough), plus a complete small-universe scope {0..5} to depth 5/6 and a reduced alphabet to depth 5; plus the "
          "operand-shape product of the binary operations: a library of 23 sets of every container type and size class "
          "(1 to 65536 elements), all ordered pairs x {and, or, xor, andnot}, and against each library set every subset "
-         "of size <=3 (thorough: <=4) of a 12-point probe alphabet placed relative to it, in both operand orders; states "
+         "of size <=3 (thorough: <=4) of a 12-point probe alphabet placed relative to it, in both operand orders; bulk adds: 12 "
+         "lists (every order class x size class 16..4100, with and without duplicates) onto every library set and cleared "
+         "containers, followed by remove and serialise/deserialise; states "
          "deduplicated on (container type, cardinality, capacity, digest of contents) per register; a class is a distinct "
          "(scope, container types of A and B, cardinality class) or container-type transition",
     explanation="E-bfs on the real objects: after every transition membership on ~90 probes, cardinality, emptiness, "
@@ -213,7 +220,8 @@ CHECKS["C14"] = dict(
          "encodings of the corpus: every truncation length and every single-byte substitution (two substitutions in the "
          "thorough tier); tagged bounded reader: all 256 first bytes x n in 0..10 x 4 payload patterns (complete); each "
          "string handed to both dictionary decoders (4 capacities), both Elias array decoders (9 declared bit counts x 3 "
-         "capacities x 2 fills of the bits past the limit), the bitmap deserialiser and the run counter; class = "
+         "capacities x 2 fills of the bits past the limit), the bitmap deserialiser and the run counter; Elias extreme codes: "
+         "0..70 leading zeros x 5 payload fills x 5 payload lengths x {alone, after valid codes}; class = "
          "(generator, length, first byte) / (deviation source family)",
     explanation="E-enum over hostile inputs: the input buffer ends exactly at a PROT_NONE page, the allocator refuses and "
                 "records requests above 16 MiB, a 2 s timer is the horizon, outputs sit before guard pages; results must "
@@ -234,15 +242,16 @@ CHECKS["C09"] = dict(
          "semantics: BFS to closure over sorted multisets of <= 7 elements on a 5-value alphabet; class = (width, slot, flavour, "
          "start bit in slot, one-/two-slot) and one class per instance for the sorted closure; plus 12 narrow-length-type "
          "instances (PACK_MAX_ELEMENTS <= 255 / 65535), far elements: every index where the index, the bit offset, the byte "
-         "offset or the slot index crosses 2^8, 2^15, 2^16, 2^24, 2^31, 2^32 (+-1) and the top of the index range, in lazily "
-         "committed 16 GiB storage, and the sorted-array operations on arrays near the top of the narrow index ranges / of "
+         "offset or the slot index crosses 2^8, 2^15, 2^16, 2^24, 2^31, 2^32 (+-1) and the top of the index range, in a "
+         "PROT_NONE reservation of 16 GiB where only the window pages are accessible (instances generated narrow-first and "
+         "interleaved, so that each kind of instantiation is followed by ones relying on the header's defaults), and the sorted-array operations on arrays near the top of the narrow index ranges / of "
          "70000 elements",
     explanation="E-enum: after Set/SetIncr/SetHalf the whole storage including guard bytes equals a bit-array model and Get of "
                 "every element equals the model; storage re-placed so that the slots the element occupies touch PROT_NONE pages "
                 "on either side (any access to a slot it does not occupy faults). E-bfs: every reachable sorted state x every "
                 "operation compared with a plain sorted array, Member = first equal or -1, BinarySearch = lower bound. Far "
-                "elements: the window around the addressed slots equals the model and mincore() shows that no other page of the "
-                "whole storage was accessed",
+                "elements: the window around the addressed slots equals the model and any access to another slot of the whole "
+                "storage faults",
     technique="exhaustive enumeration of (instantiation, position, value, background) plus explicit-state closure of the sorted-array state space",
     assumptions=["widths above 32 are outside the property; the bit-array model is trusted"],
 )
@@ -255,9 +264,9 @@ CHECKS["C11"] = dict(
     rule="both supported word types (uint64_t default, uint32_t via VBITS/VBITSVAL) x every bit offset in [0, 3W) x every "
          "width 1..W x value alphabet (all values for width <= 8 quick / 12 thorough, else 0, 1, all-ones, all-ones-1, MSB, "
          "55.., AA.., walking one) x 4 prior contents; signed helpers: width 2..64 x all magnitudes for width <= 17, alphabet "
-         "beyond; far offsets: 2^31, 2^32, 2^33, 2^34, 2^35 + 12 deltas x 10 widths x 3 values x 2 priors x {Set then independent "
-         "read, independent write then Get} in a lazily committed 4 GiB stream with a mincore() page-access oracle over the "
-         "whole stream; class = (word type, offset mod W, one-/two-word)",
+         "beyond; far offsets: 2^31 .. 2^40 and 2^42 + 12 deltas x 10 widths x 3 values x 2 priors x {Set then independent "
+         "read, independent write then Get} in a PROT_NONE reservation of 2^42 bits where only the window pages are "
+         "accessible (any access to another word faults); class = (word type, offset mod W, one-/two-word)",
     explanation="E-enum: after Set the stream plus two guard words on each side equals a bit-array model (MSB-first fields), Get "
                 "returns the value, and with PROT_NONE pages directly after the last / before the first word overlapping the "
                 "range any access to another word faults",
@@ -275,8 +284,11 @@ CHECKS["C10"] = dict(
          "all (x, y, sparse) through PAIR/DEPAIR; cells: rows in {0,1,2,3,5,16,17,255,256,257} x cols in {1,2,3,7,8,9,15,16,17,255,256,257,300} plus "
          "column counts of every width 2-8 (row 0 region) x entry kind in {bit set/clear/toggle, unsigned 1-8 bytes, float, "
          "double, half (native build)} x every cell (all cells up to 600, boundary cells beyond) x value alphabet x 2 "
-         "backgrounds; histories: full reachability of 2x3 / 3x3 bit matrices and a 2x2 byte matrix; class = (kind, rows width, "
-         "cols width) / header widths / pack dimension",
+         "backgrounds (the bit 'set' argument cycles through every truthy value class); histories: full reachability of 2x3 / "
+         "3x3 bit matrices and a 2x2 byte matrix; sequences: two matrices of different shapes at one address, the second encoded "
+         "in place or loaded (header copied in); far cells: 4 shapes up to 70000 x 70000 x 6 kinds x linear indices 2^29..2^33 "
+         "(+-1) and the last cell, in a PROT_NONE reservation of 40 GiB; class = (kind, rows width, cols width) / header widths / "
+         "pack dimension",
     explanation="E-enum against a reference buffer built with independent offset arithmetic: the whole matrix (header + cells, "
                 "ending at a PROT_NONE page) must equal the reference after each write, and read-back returns the written value; "
                 "E-bfs: every state of the small matrices x every operation compared with the model, closure reached",
@@ -310,10 +322,12 @@ CHECKS["C18"] = dict(
     configs={"quick": ["pinned", "native"], "thorough": ["pinned", "debug", "native"]},
     shards={"pinned": 16, "debug": 16},
     deadline={"quick": 150, "thorough": 2400},
-    rule="~200 scenarios (every allocating API of dictionary, patched frame-of-reference, float, adaptive and bitmap on inputs "
+    rule="~215 scenarios (every allocating API of dictionary, patched frame-of-reference, float, adaptive and bitmap on inputs "
          "chosen to reach every allocation site: <=16 and >16 dictionary entries, 0 and >0 PFOR exceptions, exact and sampled "
          "uniqueness, dictionary rebuilds across index-width classes (prior 8/100/300 entries x new 5/40/300/~10000 distinct) with "
-         "the dictionary then used as it is, every forced adaptive encoding and its decoder, bitmap create/clone/add/remove/ranges/bulk/decode on array, "
+         "the dictionary then used as it is, PFOR / adaptive inputs with exceptions plus in-range values equal to the 1- and 2-byte "
+         "marker, the adaptive encoder writing into a destination of exactly varintAdaptiveMaxSize bytes before a guard page, "
+         "every forced adaptive encoding and its decoder, bitmap create/clone/add/remove/ranges/bulk/decode on array, "
          "dense and run containers at both sides of 4096, set algebra on every pair of container kinds); for each scenario the "
          "fault-free allocation count N is measured and every k <= N is explored with the k-th allocation failing (bound 1; "
          "sequences longer than 300 identical insertions are thinned), thorough adds every pair k1 < k2 <= 41 (bound 2); class = "
@@ -333,7 +347,8 @@ CHECKS["C15"] = dict(
     shards={"pinned": 16, "debug": 16, "msan": 16},
     deadline={"quick": 150, "thorough": 1800},
     rule="operation alphabet O of ~115 calls (every encoder / decoder / sizing / metadata entry point on five small fixed inputs, "
-         "two of them with equal element counts and different data, matrices encoded in place and loaded from stored bytes, six "
+         "two of them with equal element counts and different data plus a twin with the same count and sum but another minimum, every "
+         "operation reading its input from ONE common caller buffer, matrices encoded in place and loaded from stored bytes, six "
          "operations on 10500-element inputs incl. the constant-stride-10-sample class); environment seam: rand/random/srand/"
          "lrand48/mrand48/drand48/time/clock are answered by the harness, every operation re-run fresh under 2 alternative answer "
          "streams; baseline = observable outputs (return values, output bytes up "
@@ -362,8 +377,10 @@ CHECKS["C17"] = dict(
          "a private bitmap on disjoint storage) on three shared read-only inputs and private outputs; harnesses: every unordered "
          "pair {i, j}, i <= j, as two threads (the pair (i, i) forces a collision on any lazily built or static scratch state), "
          "one three-thread harness per operation, one 16-thread harness running every operation in 16 rotations, and 30 large "
-         "operations (10 codecs x 12000-value dense / increasing / low-cardinality inputs) as two-thread pairs (quick: same codec "
-         "or same input; thorough: all 465 pairs and every large x every fifth small operation); per harness: solo "
+         "operations (10 codecs x 12000-value dense / increasing / low-cardinality inputs) and 30 medium ones (2000 values) as "
+         "two-thread pairs (quick: same codec or same input; thorough: all pairs and every large/medium x every fifth small "
+         "operation), and 6 record operations (in-place adds on adjacent varint slots of one 8-byte aligned record, one owner "
+         "thread per slot, every pair of distinct slots); per harness: solo "
          "runs, three serial orders (ascending, descending, switch at every function entry) with per-thread event-log and output "
          "equality, conflict computation over all memory events, then every schedule up to preemption bound 1 (quick) / 2 "
          "(thorough) over the choice points; class = (first operation of the pair)",
